@@ -10,7 +10,11 @@ REPO="${VERIF_REPO:-/repo}"
 if [ -n "$(git -C $REPO status --porcelain)" ]; then echo "$REPO is not clean"; exit 2; fi
 CHECKS="$@"
 if [ -z "$CHECKS" ]; then CHECKS=$(python3 -c "import json;print(json.load(open('$DIR/meta.json'))['property'])"); fi
-git -C $REPO apply "$DIR/patch.diff" || { echo "patch does not apply"; exit 2; }
+# a change written against an earlier commit of /repo may carry a rebased copy of its patch
+PATCH="$DIR/patch.diff"
+[ -f "$DIR/patch.rebased.diff" ] && PATCH="$DIR/patch.rebased.diff"
+git -C $REPO apply "$PATCH" 2>/dev/null || git -C $REPO apply --3way "$PATCH" 2>/dev/null || { git -C $REPO checkout -- . ; echo "seeded=$ID patch does not apply to the current tree"; exit 2; }
+git -C $REPO reset -q 2>/dev/null
 trap 'git -C $REPO checkout -- . ; git -C $REPO clean -fdq' EXIT
 for C in $CHECKS; do
   OUT=$(cd /verif && timeout 1500 ./run.sh $C quick 2>&1)
